@@ -280,3 +280,172 @@ pub fn dominfo(c: &Cfg) -> String {
     let ch: Vec<String> = c.iter().map(|b| list(c.get_dominator_successors(b))).collect();
     format!("(dominfo (frontier {}) (children {}))", fr.join(" "), ch.join(" "))
 }
+
+// ---------------------------------------------------------------------------
+// Rich dump (engine `liftfull`): like `cfg`, but with the meta of EVERY node
+// (expressions included) instead of the value/degree knowledge, the log strings,
+// the signal tags, the block metas, the parameter location and the complete
+// declaration records.
+//
+// xexpr  := (num M HEX) | (var M V) | (infix M OP E E) | (prefix M OP E) | (switch M E E E)
+//         | (call M NAME (E*)) | (array M (E*)) | (access M V (A*)) | (update M V (A*) E) | (phi M (V*))
+// xtype  := local | component | anoncomponent | (sigin TAG*) | (sigout TAG*) | (sigint TAG*)      TAG hex
+// xstmt  := (decl M (V*) XTYPE (E*)) | (if M E T F|-) | (ret M E) | (subst M V OP E XTYPE|-)
+//         | (ceq M E E) | (log M (LA*)) | (assert M E)          LA := (str HEX) | (e E)
+// xblock := (block M INDEX DEPTH (S*) (PRED*) (SUCC*))
+// xdecl  := (V XTYPE (E*) FILE|- START END)
+// xcfg   := (xcfg KIND (params V*) FILE|- START END (decls XDECL*) (blocks XBLOCK*))
+// ---------------------------------------------------------------------------
+
+fn xaccess(a: &[AccessType]) -> String {
+    let parts: Vec<String> = a
+        .iter()
+        .map(|x| match x {
+            AccessType::ArrayAccess(e) => format!("(idx {})", xexpr(e)),
+            AccessType::ComponentAccess(n) => format!("(comp {})", hexs(n)),
+        })
+        .collect();
+    format!("({})", parts.join(" "))
+}
+
+fn xexprs(es: &[Expression]) -> String {
+    format!("({})", es.iter().map(xexpr).collect::<Vec<_>>().join(" "))
+}
+
+pub fn xexpr(e: &Expression) -> String {
+    use Expression::*;
+    let m = meta(e.meta());
+    match e {
+        Number(_, v) => format!("(num {} {})", m, big(v)),
+        Variable { name, .. } => format!("(var {} {})", m, var(name)),
+        InfixOp { lhe, infix_op, rhe, .. } => {
+            format!("(infix {} {} {} {})", m, infix(infix_op), xexpr(lhe), xexpr(rhe))
+        }
+        PrefixOp { prefix_op, rhe, .. } => format!("(prefix {} {} {})", m, prefix(prefix_op), xexpr(rhe)),
+        SwitchOp { cond, if_true, if_false, .. } => {
+            format!("(switch {} {} {} {})", m, xexpr(cond), xexpr(if_true), xexpr(if_false))
+        }
+        Call { name, args, .. } => format!("(call {} {} {})", m, hexs(name), xexprs(args)),
+        InlineArray { values, .. } => format!("(array {} {})", m, xexprs(values)),
+        Access { var: v, access: a, .. } => format!("(access {} {} {})", m, var(v), xaccess(a)),
+        Update { var: v, access: a, rhe, .. } => {
+            format!("(update {} {} {} {})", m, var(v), xaccess(a), xexpr(rhe))
+        }
+        Phi { args, .. } => {
+            format!("(phi {} ({}))", m, args.iter().map(var).collect::<Vec<_>>().join(" "))
+        }
+    }
+}
+
+pub fn xvtype(t: &VariableType) -> String {
+    use SignalType::*;
+    use VariableType::*;
+    let sig = |k: &str, tags: &Vec<String>| {
+        let mut o = format!("({}", k);
+        for t in tags {
+            o.push(' ');
+            o.push_str(&hexs(t));
+        }
+        o.push(')');
+        o
+    };
+    match t {
+        Local => "local".to_string(),
+        Component => "component".to_string(),
+        AnonymousComponent => "anoncomponent".to_string(),
+        Signal(Input, tags) => sig("sigin", tags),
+        Signal(Output, tags) => sig("sigout", tags),
+        Signal(Intermediate, tags) => sig("sigint", tags),
+    }
+}
+
+pub fn xstmt(s: &Statement) -> String {
+    use Statement::*;
+    let m = meta(s.meta());
+    match s {
+        Declaration { names, var_type, dimensions, .. } => format!(
+            "(decl {} ({}) {} {})",
+            m,
+            names.iter().map(var).collect::<Vec<_>>().join(" "),
+            xvtype(var_type),
+            xexprs(dimensions)
+        ),
+        IfThenElse { cond, true_index, false_index, .. } => format!(
+            "(if {} {} {} {})",
+            m,
+            xexpr(cond),
+            true_index,
+            false_index.map(|x| x.to_string()).unwrap_or("-".to_string())
+        ),
+        Return { value, .. } => format!("(ret {} {})", m, xexpr(value)),
+        Substitution { meta: sm, var: v, op, rhe } => {
+            let op = match op {
+                AssignOp::AssignSignal => "sig",
+                AssignOp::AssignConstraintSignal => "csig",
+                AssignOp::AssignLocalOrComponent => "var",
+            };
+            let st = sm.type_knowledge().variable_type().map(xvtype).unwrap_or("-".to_string());
+            format!("(subst {} {} {} {} {})", m, var(v), op, xexpr(rhe), st)
+        }
+        ConstraintEquality { lhe, rhe, .. } => format!("(ceq {} {} {})", m, xexpr(lhe), xexpr(rhe)),
+        LogCall { args, .. } => {
+            let parts: Vec<String> = args
+                .iter()
+                .map(|a| match a {
+                    LogArgument::String(s) => format!("(str {})", hexs(s)),
+                    LogArgument::Expr(e) => format!("(e {})", xexpr(e)),
+                })
+                .collect();
+            format!("(log {} ({}))", m, parts.join(" "))
+        }
+        Assert { arg, .. } => format!("(assert {} {})", m, xexpr(arg)),
+    }
+}
+
+pub fn xblock(b: &BasicBlock) -> String {
+    format!(
+        "(block {} {} {} ({}) {} {})",
+        meta(b.meta()),
+        b.index(),
+        b.loop_depth(),
+        b.iter().map(xstmt).collect::<Vec<_>>().join(" "),
+        sorted(DirectedGraphNode::predecessors(b)),
+        sorted(DirectedGraphNode::successors(b))
+    )
+}
+
+pub fn xcfg(c: &Cfg) -> String {
+    let kind = match c.definition_type() {
+        DefinitionType::Function => "function",
+        DefinitionType::Template => "template",
+        DefinitionType::CustomTemplate => "custom",
+    };
+    let mut decls: Vec<String> = c
+        .declarations()
+        .iter()
+        .map(|(n, d)| {
+            let loc = d.file_location();
+            format!(
+                "({} {} {} {} {} {})",
+                var(n),
+                xvtype(d.variable_type()),
+                xexprs(d.dimensions()),
+                d.file_id().map(|x| x.to_string()).unwrap_or("-".to_string()),
+                loc.start,
+                loc.end
+            )
+        })
+        .collect();
+    decls.sort();
+    let p = c.parameters();
+    format!(
+        "(xcfg {} (params {}) {} {} {} (decls {}) (blocks {}))",
+        kind,
+        p.iter().map(var).collect::<Vec<_>>().join(" "),
+        p.file_id().map(|x| x.to_string()).unwrap_or("-".to_string()),
+        p.file_location().start,
+        p.file_location().end,
+        decls.join(" "),
+        c.iter().map(xblock).collect::<Vec<_>>().join(" ")
+    )
+}
